@@ -9,7 +9,8 @@ import Toodee.Driver.SpecOracle
    G2  no double drop happened (`dbl` unchanged);
    G3  every cell is live (`live ≥ L` on the ledgered kinds);
    G4  a successful step that leaks nothing by design leaves no element undropped: `live - L` unchanged;
-   G5  every reachable cell holds an element that was in the array before or was supplied by the caller.
+   G5  every reachable cell holds an element that was in the array before or was supplied by the caller;
+   G6  an element handed out by a drain is no longer in the array (no duplication), also when the drain is leaked.
 -/
 namespace Toodee.Driver
 open Toodee
@@ -39,7 +40,17 @@ def genericChecks (cx : Ctx) (prev : RObs) (line : String) (r : RObs) : List Str
     else
       let allowed := prev.st.data ++ numbersIn line ++ [0]
       if st.data.all fun v => allowed.contains v then [] else ["G5:cell-of-unknown-origin"]
-  g1 ++ g2 ++ g3 ++ g4 ++ g5
+  -- G6 (C07/C12): an element handed out by a drain is no longer in the array, whatever happens to the drain afterwards
+  let g6 :=
+    if ["remove_row", "remove_col", "pop_row", "pop_col"].contains op ∧ cx.elem ≠ .zst ∧ !st.big ∧ !prev.st.big
+        ∧ prev.st.data.eraseDups.length = prev.st.data.length then
+      let word := if op.startsWith "pop" then ws.getD 2 "-" else ws.getD 3 "-"
+      let steps := if word = "-" then [] else word.splitOn ","
+      let itemSteps := steps.map fun s => ["n", "b", "N", "B"].contains (s.take 1).toString
+      let yielded := (itemSteps.zip r.toks).filterMap fun (isItem, tok) => if isItem then tok.toNat? else none
+      if yielded.any fun y => st.data.contains y then ["G6:yielded-element-still-in-array"] else []
+    else []
+  g1 ++ g2 ++ g3 ++ g4 ++ g5 ++ g6
 
 def oracle (cx : Ctx) (prev : RObs) (line : String) (robs : Option RObs) : String :=
   match robs with
